@@ -132,6 +132,12 @@ pub fn units(tier: Tier, seed: u64) -> Vec<UnitSpec> {
     for d in [1u32, 2, 3] {
         u.push(UnitSpec::Special { name: "surrogate-names".into(), depth: d });
     }
+    // a method that uses every bytecode offset it can as a label: code_length 65535, one line-number entry per
+    // instruction (depth = how many) and a local variable live over the whole code (its end label is offset 65535):
+    // 65534 / 65535 / 65536 labels in one method (side remark of the sub-agent that wrote C16-10..12)
+    for d in [65_533u32, 65_534, 65_535] {
+        u.push(UnitSpec::Special { name: "max-labels".into(), depth: d });
+    }
     let depths: &[u32] = match tier {
         Tier::Quick => &[70, 3_000, 60_000],
         Tier::Thorough => &[70, 3_000, 60_000, 400_000],
@@ -424,6 +430,43 @@ fn special(name: &str, depth: u32) -> SeedInput {
             let mut sf = vec![];
             push_u16(&mut sf, 11);
             class_seed(assemble(&cp, 12, 2, 4, &f, 1, &m, 1, &attr(10, &sf), 1), vec![])
+        }
+        "max-labels" => {
+            // 1 "A" 2 Class1 3 "java/lang/Object" 4 Class3 5 "m" 6 "()V" 7 "Code" 8 "LineNumberTable"
+            // 9 "LocalVariableTable" 10 "v" 11 "I"
+            let cp = vec![e_utf8("A"), e_class(1), e_utf8("java/lang/Object"), e_class(3), e_utf8("m"), e_utf8("()V"), e_utf8("Code"), e_utf8("LineNumberTable"), e_utf8("LocalVariableTable"), e_utf8("v"), e_utf8("I")];
+            let mut code = vec![];
+            push_u16(&mut code, 1);
+            push_u16(&mut code, 1);
+            push_u32(&mut code, 65_535);
+            code.extend(std::iter::repeat(0u8).take(65_534)); // nop
+            code.push(0xb1); // return
+            push_u16(&mut code, 0); // exception table
+            push_u16(&mut code, 2); // attributes
+            let mut lnt = vec![];
+            push_u16(&mut lnt, depth as u16);
+            for pc in 0..depth {
+                push_u16(&mut lnt, pc as u16);
+                push_u16(&mut lnt, (pc % 50_000) as u16 + 1);
+            }
+            code.extend_from_slice(&attr(8, &lnt));
+            let mut lvt = vec![];
+            push_u16(&mut lvt, 1);
+            push_u16(&mut lvt, 0); // start_pc
+            push_u16(&mut lvt, 65_535); // length: the end label is the exclusive end of the code
+            push_u16(&mut lvt, 10);
+            push_u16(&mut lvt, 11);
+            push_u16(&mut lvt, 0);
+            code.extend_from_slice(&attr(9, &lvt));
+            let mut m = vec![];
+            push_u16(&mut m, 0x0009);
+            push_u16(&mut m, 5);
+            push_u16(&mut m, 6);
+            push_u16(&mut m, 1);
+            m.extend_from_slice(&attr(7, &code));
+            let mut sd = class_seed(assemble(&cp, 12, 2, 4, &[], 0, &m, 1, &[], 0), vec![]);
+            sd.slow = true;
+            sd
         }
         "dynamic-dag" => {
             const LEVELS: u16 = 16;
